@@ -262,6 +262,10 @@ def run(ctx):
     else:
         ctx.obligation_broken("stage P: lean/XzVerif/Props/C07.lean is missing", "")
         p_ok = False
+    drv_ok = p_ok
+    if not p_ok:
+        rc, out = vlib.lake(["build", "xzm_c07"])
+        drv_ok = rc == 0
     if not schedlib.check_header_in_sync(vlib.ROOT):
         ctx.obligation_broken("tools/schedlib.py WRAPPED differs from SCHED_WRAPPED in harness/vsched.h", "")
     # ---- B
@@ -284,7 +288,7 @@ def run(ctx):
     for i in range(ncases):
         e = rng.choice(pools[pick_pool(rng, pools)])
         cases.append((e, gen_case(rng, e, i)))
-    bad_total = run_cases(ctx, exe, cases, "controlled", model_ok=p_ok)
+    bad_total = run_cases(ctx, exe, cases, "controlled", model_ok=drv_ok)
     # ---- K2 (thorough): real scheduling under ThreadSanitizer
     if not quick:
         texe = build(ctx, "tsan")
@@ -349,7 +353,7 @@ def run_cases(ctx, exe, cases, label, model_ok, tsan=False):
             shashes.add(r.get("shash"))
             if r.get("hook") == "1":
                 hook_seen = True
-                if model_ok and not int(r["ended"]):
+                if model_ok and r.get("ev", "-") != "-" and len(r["ev"]) < 400000:
                     trace_jobs.append((e, p, line, r))
             if fails:
                 nbad += 1
@@ -386,6 +390,8 @@ def run_cases(ctx, exe, cases, label, model_ok, tsan=False):
         "tsan_reports": ntsan, "h3_hook_present": hook_seen, "wall_s": round(time.time() - t, 1)}
     ctx.log("%s: %d runs, %d failing, %d distinct schedules, %.1fs" % (label, len(cases), nbad, len(shashes), time.time() - t))
     if trace_jobs:
+        if ctx.quick() and len(trace_jobs) > 1500:
+            trace_jobs = trace_jobs[::max(1, len(trace_jobs) // 1500)]
         trace_inclusion(ctx, trace_jobs, label)
     return nbad
 
@@ -397,27 +403,34 @@ def trace_inclusion(ctx, jobs, label):
         return
     lines = []
     for e, p, line, r in jobs:
-        lines.append("trace threads=%s failfast=%d ret=%s ev=%s" % (p["threads"], 1 if int(p["flags"]) & F_FAILFAST else 0, r["mt_ret"], r["ev"]))
+        lines.append("trace threads=%s failfast=%d timed=%d ev=%s" % (p["threads"], 1 if int(p["flags"]) & F_FAILFAST else 0, 1 if int(p["timeout"]) else 0, r["ev"]))
     parts = vlib.chunks(list(range(len(lines))), vlib.NCPU)
     res = vlib.par_map(lambda ix: vlib.run_lines([mexe], [lines[i] for i in ix]), parts)
     rejected = 0
     answered = 0
+    skipped = 0
     for ix, (rc, out, err) in zip(parts, res):
         if len(out) != len(ix):
             ctx.obligation_broken("model driver xzm_c07 failed to answer every trace", err[-2000:])
             continue
         for i, o in zip(ix, out):
             answered += 1
+            if o.startswith("skip"):
+                skipped += 1
+                continue
             if not o.startswith("accept"):
                 rejected += 1
                 e, p, line, r = jobs[i]
+                if os.environ.get("C07_DEBUG"):
+                    with open(os.path.join(vlib.CACHE, "c07-rejects.txt"), "a") as f:
+                        f.write("%s\t%s\n" % (o[:300], line))
                 if rejected <= 3:
                     fails = judge(p, e, r)
                     if fails:
                         continue   # already reported by the direct oracle
                     ctx.obligation_broken("trace inclusion C07: the implementation's protocol trace is not a behaviour of Model/MtDec.lean (%s)" % o[:200],
                                           json.dumps({"op": line, "model": o[:2000], "events": r["ev"][:4000]}))
-    ctx.cov["correspondence"].setdefault("stages", {})[label + "-trace-inclusion"] = {"traces": answered, "rejected": rejected}
+    ctx.cov["correspondence"].setdefault("stages", {})[label + "-trace-inclusion"] = {"traces": answered, "rejected": rejected, "skipped_unmodelled": skipped}
     ctx.log("%s: trace inclusion %d traces, %d rejected" % (label, answered, rejected))
 
 
